@@ -13,18 +13,14 @@ pub enum Ret {
 
 pub fn mat_of(v: &Value) -> Matrix {
     // built through the public fields: the abstract state is exactly these three fields
-    Matrix {
-        data: Vector::new(f64s(&v["data"])),
-        nrows: v["nrows"].as_u64().unwrap() as usize,
-        ncols: v["ncols"].as_u64().unwrap() as usize,
-    }
+    mk(Vector::new(f64s(&v["data"])), v["nrows"].as_u64().unwrap() as usize, v["ncols"].as_u64().unwrap() as usize)
 }
 pub fn mat_json(m: &Matrix) -> Value {
     json!({"nrows": m.nrows, "ncols": m.ncols, "data": projs(&m.data, 1)})
 }
 fn operand(r: i64, c: i64) -> Matrix {
     let d: Vec<f64> = (1..=(r * c)).map(|k| 100.0 + k as f64).collect();
-    Matrix { data: Vector::new(d), nrows: r as usize, ncols: c as usize }
+    mk(Vector::new(d), r as usize, c as usize)
 }
 fn f(which: i64) -> impl Fn(f64) -> f64 {
     move |x| if which == 1 { x + 1.0 } else { 2.0 * x }
@@ -449,7 +445,7 @@ fn ctor_case(v: &mut Verdicts, c: &Value) {
             // same data, different shape (or length): never equal / close
             let (r, cc) = (i("r") as usize, i("c") as usize);
             let a = Matrix::new(vec![1.0; 6], 2, 3);
-            let b = Matrix { data: Vector::new(vec![1.0; r * cc]), nrows: r, ncols: cc };
+            let b = mk(Vector::new(vec![1.0; r * cc]), r, cc);
             let sameshape = r == 2 && cc == 3;
             let g1 = guard(|| a == b);
             let g2 = guard(|| a.close_to(&b, 0.5));
